@@ -1032,16 +1032,19 @@ def _factor_pow2(t):
     if _is_pow2_term(t):
         return t
     if z3.is_mul(t):
+        # product of the power-of-two parts of the factors
+        P = 1
         for ch in t.children():
-            if _is_pow2_term(ch):
-                rest = [c for c in t.children() if c is not ch]
-                # include constant power-of-two factors
-                return ch
-        consts = [c for c in t.children() if z3.is_int_value(c)]
-        if consts:
-            c = consts[0].as_long()
-            if c != 0:
-                return c & -c
+            if z3.is_int_value(ch):
+                c = ch.as_long()
+                if c == 0:
+                    return None
+                P = P * (c & -c) if isinstance(P, int) else P * z3.IntVal(c & -c)
+            elif _is_pow2_term(ch):
+                P = ch * z3.IntVal(P) if isinstance(P, int) else P * ch
+        if isinstance(P, int):
+            return P if P > 1 else None
+        return z3.simplify(P)
     return None
 
 
